@@ -64,7 +64,7 @@ Proof. exact (translate_pos d x z). Qed.
 Print Assumptions C19_translate_pos.
 
 (* a reference that matches nothing resolves to None - without raising *)
-Theorem C19_translate_stale d x : stale d x -> x <> INone -> translate d x = Ok INone.
+Theorem C19_translate_stale d x : stale d x -> translate d x = Ok INone.
 Proof. exact (translate_stale d x). Qed.
 Print Assumptions C19_translate_stale.
 
@@ -74,12 +74,24 @@ Theorem C19_translate_range d x a : translate d x = Ok a -> a = INone \/ In a (a
 Proof. exact (translate_range d x a). Qed.
 Print Assumptions C19_translate_range.
 
-(* None itself is NOT tolerated: int(None) raises TypeError.  This is what a second
-   translation of an already rewritten stale id runs into (open finding, see Props/C18.v). *)
-Theorem C19_translate_none_raises d :
-  ~ L_alias d INone -> ~ L_eid d INone -> ~ L_svid d INone -> translate d INone = Raise TypeErr.
-Proof. exact (translate_none_raises d). Qed.
-Print Assumptions C19_translate_none_raises.
+(* None itself (a null in an id list; the second translation of a stale id that the first one
+   rewrote to None in the caller's dict) matches nothing and gives None.  REPAIRED defect
+   C19-none-reference-raises: before commit "fix: translate_element_id(None) returns None instead of
+   raising TypeError" int(None) raised TypeError here. *)
+Theorem C19_translate_none d :
+  ~ L_eid d INone -> ~ L_svid d INone -> translate d INone = Ok INone.
+Proof. exact (translate_none d). Qed.
+Print Assumptions C19_translate_none.
+
+(* no identifier at all makes the cascade raise (element ids are never null) *)
+Theorem C19_translate_total d x : ~ In INone (raw_ids d) -> exists a, translate d x = Ok a.
+Proof. exact (translate_total d x). Qed.
+Print Assumptions C19_translate_total.
+
+(* ... hence rewriting a transforms dict never raises *)
+Theorem C19_shim_total d t : ~ In INone (raw_ids d) -> snd (shim_xf d t) = None.
+Proof. exact (shim_xf_total d t). Qed.
+Print Assumptions C19_shim_total.
 
 (* ---- Crunch-shaped dimensions: every spelling of the property text resolves to the item ---- *)
 Theorem C19_translate_spellings d k x :
@@ -137,7 +149,7 @@ Proof. exact (opp_index_ref d ok x). Qed.
 Print Assumptions C19_slot_opposing.
 
 Theorem C19_slot_opposing_stale d x :
-  wf d -> stale d x -> x <> INone -> opp_index d x = Ok None.
+  wf d -> stale d x -> opp_index d x = Ok None.
 Proof. exact (opp_index_stale d x). Qed.
 Print Assumptions C19_slot_opposing_stale.
 
@@ -181,21 +193,32 @@ Theorem C19_datetime_idem d l r :
 Proof. exact (dt_replaced_ids_idem d l r). Qed.
 Print Assumptions C19_datetime_idem.
 
-(* OPEN FINDING C19-datetime-missing-position.  "References that match nothing are ignored
-   rather than raising" fails for the position id of the missing ("No Data") element of a
-   datetime dimension: it translates to the JSON object {"?": -1}, which cannot be a dict key
-   (TypeError in the element-transforms rewrite) nor be looked up by the collators. *)
-Theorem C19_datetime_missing_refuted :
-  exists (d : dtdim) (k : ident) (e : edict),
-    NoDup (dt_ids d) /\ In (k, DMissing) d /\
-    dt_translate d k = TObj /\ dt_replaced_elements d e = Raise TypeErr.
-Proof.
-  exists [(IInt 0, DVal (IStr "2010-01")); (IInt 1, DVal (IStr "2010-02")); (IInt 2, DMissing)].
-  exists (IInt 2). exists [(IStr "2", Payload 0)].
-  split; [repeat constructor; simpl; intuition discriminate|].
-  split; [simpl; tauto|]. split; vm_compute; reflexivity.
-Qed.
-Print Assumptions C19_datetime_missing_refuted.
+(* REPAIRED defect C19-datetime-missing-position (commit "fix: a datetime reference to the missing
+   element's position is left alone").  The position id of the missing ("No Data") element used
+   to translate to its value, the JSON object {"?": -1}, which cannot be a dict key (TypeError in
+   the element-transforms rewrite) nor be looked up by the collators.  Now it is left alone, no
+   reference ever translates to the object, and the rewrite of the keys is total: "references that
+   match nothing are ignored rather than raising". *)
+Theorem C19_datetime_missing_position d k :
+  NoDup (dt_ids d) -> In (k, DMissing) d -> dt_key k = k -> dt_translate d k = TId k.
+Proof. exact (dt_translate_missing d k). Qed.
+Print Assumptions C19_datetime_missing_position.
+
+Theorem C19_datetime_never_object d x : dt_translate d x <> TObj.
+Proof. exact (dt_translate_never_obj d x). Qed.
+Print Assumptions C19_datetime_never_object.
+
+Theorem C19_datetime_elements_total d e : exists e', dt_replaced_elements d e = Ok e'.
+Proof. exact (dt_replaced_elements_total d e). Qed.
+Print Assumptions C19_datetime_elements_total.
+
+(* the former witness: position 2 of the missing element as a hide key *)
+Example C19_datetime_missing_example :
+  let d := [(IInt 0, DVal (IStr "2010-01")); (IInt 1, DVal (IStr "2010-02")); (IInt 2, DMissing)] in
+  dt_translate d (IInt 2) = TId (IInt 2) /\ dt_translate d (IStr "2") = TId (IStr "2") /\
+  dt_replaced_elements d [(IStr "2", Payload 0); (IStr "1", Payload 1)] =
+    Ok [(IStr "2", Payload 0); (IStr "2010-02", Payload 1)].
+Proof. vm_compute. repeat split; reflexivity. Qed.
 
 (* ---- non-vacuity and sharpness ------------------------------------------------------------ *)
 (* a typical MR dimension with an inserted item, ids 1..4, sub-variable ids "0001".. *)
@@ -215,8 +238,21 @@ Example C19_example_spellings :
   translate ex_dim (IStr "3") = Ok (IStr "bool2") /\
   translate ex_dim (IInt 0) = Ok (IStr "A&B") /\           (* 0 is no element id: position *)
   translate ex_dim (IStr "0009") = Ok INone /\             (* stale *)
-  translate ex_dim INone = Raise TypeErr.
+  translate ex_dim INone = Ok INone.                       (* null: matches nothing *)
 Proof. vm_compute. repeat split; reflexivity. Qed.
+
+(* None is a reference to nothing in the sense of the slot theorems *)
+Example C19_example_none_ref : ref ex_dim None INone.
+Proof.
+  unfold ref, stale, L_alias, L_eid, L_mrstr, L_svid, L_num, L_pos.
+  split; [|split; [|split; [|split; [|split]]]].
+  - vm_compute. intuition discriminate.
+  - vm_compute. intuition discriminate.
+  - intros [_ H]. vm_compute in H. intuition discriminate.
+  - vm_compute. intuition discriminate.
+  - intros [z [H _]]. discriminate H.
+  - intros [z [H _]]. discriminate H.
+Qed.
 
 Example C19_example_slots :
   let t1 := mk_xf (Some [(IStr "0005", Payload 7); (IStr "zz", Payload 8)])
